@@ -43,7 +43,7 @@ func cloneRoutes(rs []*route) []*route {
 }
 
 func (c tcase) clone() tcase {
-	return tcase{cloneRoutes(c.rs), c.hasErrs, cloneRoutes(c.errs), c.q}
+	return tcase{cloneRoutes(c.rs), c.hasErrs, cloneRoutes(c.errs), c.q, c.named}
 }
 
 // editor applies the k-th possible one-step reduction during a walk.
